@@ -37,6 +37,21 @@ def public_inputs(c, rnd, scale):
     pts = [c.mul_base(rnd.randrange(1, c.n)) for _ in range(4 * scale)]
     pts += [c.mul_base(k) for k in (1, 2, 3, c.n - 1, c.n - 2)]
     pts += small_x_points(c, 3 * scale, lo=0)  # includes (0, sqrt(b)), a valid point on all three curves
+    # valid points whose x lies between the group order n and the field prime p (canonical for the field, not for the scalar ring)
+    got = 0
+    x = c.p - 1
+    while got < 3 and x >= c.n:
+        y = c.lift_x(x)
+        if y is not None:
+            pts.append((x, y))
+            got += 1
+        x -= 1
+    for _ in range(400):
+        x = rnd.randrange(c.n, c.p)
+        y = c.lift_x(x)
+        if y is not None:
+            pts.append((x, y))
+            break
     for (x, y) in pts:
         items.append(("valid", enc(x, y)))
         items.append(("valid_negated", enc(x, p - y)))
